@@ -32,6 +32,12 @@ def c13_behaviours(entries, rng, thorough=False):
         k = len(bs)
         for aes, sha in [OTHER_FAILURE_CODES[(k + j) % len(OTHER_FAILURE_CODES)] for j in range(2 if not thorough else len(OTHER_FAILURE_CODES))]:
             bs.append(["stinj %d %d" % (aes, sha), "st 2", "gate %s %s" % (entry, v), "gate %s %s" % (entry, v)])
+        # the real self-tests on top of a broken primitive (one of six engines returns a result with one flipped bit; pairs of an
+        # AES and a SHA engine too): whatever the cause, the verdict must be "failed"
+        k = len(bs)
+        kinds = [(1, 0), (2, 0), (3, 0), (4, 0), (5, 0), (6, 0), (1, 4), (2, 5), (3, 6), (1, 6)]
+        for f1, f2 in (kinds if thorough else [kinds[k % len(kinds)], kinds[(k + 3) % len(kinds)]]):
+            bs.append(["stfault %d %d" % (f1, f2), "stinj -9 -9", "st 2", "gate %s %s" % (entry, v), "gate %s %s" % (entry, v), "stfault 0"])
         # every in-domain value of every scalar argument meets the same gate (zero-length CBC included): latched failure, and a
         # first call whose self-tests fail
         for i, L in enumerate(sig):
